@@ -465,7 +465,24 @@ func (x *c16ctx) checkIngesters() {
 		n := 0
 		for _, ci := range core.Calls(ig.Read) {
 			call, ok := ci.(*ssa.Call)
-			if !ok || !call.Call.IsInvoke() || call.Call.Method != readM {
+			if !ok {
+				continue
+			}
+			// the reader's Read: an invoke of FormatReader.Read (possibly through a local interface view of the
+			// reader), or a call whose error result is exactly that symbolic interface call (bound method value)
+			isReaderRead := call.Call.IsInvoke() && ecSameIfaceMethod(ecOriginMethod(&call.Call), readM)
+			if !isReaderRead && !call.Call.IsInvoke() {
+				if ix := ecErrResultIdx(call.Call.Signature()); len(ix) == 1 {
+					cls := e.callClasses(call, ix[0], ecStack{})
+					isReaderRead = len(cls) == 1
+					for el := range cls {
+						if el.Kind != ecIFACE || !ecSameIfaceMethod(el.Fn, readM) {
+							isReaderRead = false
+						}
+					}
+				}
+			}
+			if !isReaderRead {
 				continue
 			}
 			n++
